@@ -90,9 +90,11 @@ TaggedEnumAt(S, x, i) ==
         [] name = "Nw" -> IF S.ss[1].t = "Str" THEN V("Nw", "", <<V("S", x[i].v, <<>>)>>) ELSE Payload(S, y, "Nw", i)
         [] name = "St" -> Payload(S, y, "St", i)
         [] OTHER -> ERRN)
-  ELSE (CASE name \in {"T", "Nw"} -> Payload(S, y, name, i) [] OTHER -> ERRN)
+  ELSE IF x[i].k = "SS" THEN (CASE name \in {"T", "Nw"} -> Payload(S, y, name, i) [] OTHER -> ERRN)
+  \* a tagged mapping: the mapping is the payload (a struct variant's fields, a newtype variant's map / struct payload)
+  ELSE (CASE name \in {"St", "Nw"} -> Payload(S, y, name, i) [] OTHER -> ERRN)
 EnumAt(S, x, i) ==
-  IF x[i].k \in {"S", "SS"} /\ TagName(x[i].t) # "" THEN TaggedEnumAt(S, x, i)
+  IF x[i].k \in {"S", "SS", "MS"} /\ TagName(x[i].t) # "" THEN TaggedEnumAt(S, x, i)
   ELSE IF x[i].k = "S" THEN
      (IF x[i].t # "" THEN ERRN
       ELSE IF x[i].v = "U" THEN V("U", "", <<>>)
